@@ -16,12 +16,12 @@ PLANS = {
     "C04": dict(models=dict(quick=[("MC_HRaft.tla", "MC_Dup_q.cfg", 300)], thorough=[("MC_HRaft.tla", "MC_Replication.cfg", 900), ("MC_HRaft.tla", "MC_Dup_q.cfg", 600)]), families=dict(quick=[("chaos", 16, 500), ("snap", 12, 400), ("snapcfgterm", 12, 0)], thorough=[("chaos", 200, 800), ("snap", 120, 600), ("restart", 80, 600), ("snapcfgterm", 48, 0)]), suites=["l2:ae"]),
     "C05": dict(models=dict(quick=[("MC_HRaft.tla", "MC_Replication_q.cfg", 300)], thorough=[("MC_HRaft.tla", "MC_Replication.cfg", 900), ("MC_HRaft.tla", "MC_Membership.cfg", 1200)]), families=dict(quick=[("chaos", 20, 500), ("member", 16, 400), ("figure8", 8, 0), ("dupis", 9, 500), ("phases", 10, 0)], thorough=[("chaos", 160, 800), ("member", 120, 600), ("figure8", 64, 0), ("dupis", 48, 500), ("phases", 64, 0)]), suites=["l1:commitment"]),
     "C06": dict(models=dict(quick=[("MC_HRaft.tla", "MC_Crash_q.cfg", 300), ("FastPath.tla", "FastPath_design.cfg", 120), ("FastPath.tla", "FastPath_asis.cfg", 120, "TermNeverDecreases")], thorough=[("MC_HRaft.tla", "MC_Crash.cfg", 900), ("MC_HRaft.tla", "MC_Election.cfg", 900), ("FastPath.tla", "FastPath_design6.cfg", 300), ("FastPath.tla", "FastPath_asis.cfg", 120, "TermNeverDecreases")]), families=dict(quick=[("elect", 16, 400), ("voterestart", 6, 0), ("phases", 8, 0), ("fastpathup", 6, 0), ("cfgtrunc", 12, 0), ("fastpathsnap", 4, 0)], thorough=[("elect", 240, 600), ("chaos", 80, 600), ("voterestart", 32, 0), ("phases", 48, 0), ("fastpathup", 40, 0), ("snapvote", 24, 0), ("cfgtrunc", 48, 0), ("fastpathsnap", 24, 0)]), suites=["l2:vote", "l2:vote2", "l2:vote3"]),
-    "C07": dict(models=dict(quick=[("MC_HRaft.tla", "MC_Membership_q.cfg", 300)], thorough=[("MC_HRaft.tla", "MC_Membership.cfg", 1200)]), families=dict(quick=[("member", 24, 400), ("cfgtrunc", 8, 0), ("snapmember", 8, 400), ("demoteelect", 8, 0), ("xfernonvoter", 8, 0)], thorough=[("member", 240, 600), ("cfgtrunc", 32, 0), ("snapmember", 80, 500), ("demoteelect", 48, 0), ("xfernonvoter", 48, 0), ("cfgtruncelect", 24, 0)]), suites=["l1:configuration"]),
+    "C07": dict(models=dict(quick=[("MC_HRaft.tla", "MC_Membership_q.cfg", 300)], thorough=[("MC_HRaft.tla", "MC_Membership.cfg", 1200)]), families=dict(quick=[("member", 24, 400), ("cfgtrunc", 8, 0), ("snapmember", 8, 400), ("demoteelect", 8, 0), ("xfernonvoter", 8, 0), ("restorefresh", 8, 0)], thorough=[("restorefresh", 48, 0), ("member", 240, 600), ("cfgtrunc", 32, 0), ("snapmember", 80, 500), ("demoteelect", 48, 0), ("xfernonvoter", 48, 0), ("cfgtruncelect", 24, 0)]), suites=["l1:configuration"]),
     "C08": dict(families=dict(quick=[("client", 32, 400), ("barrierrace", 8, 0), ("mixedbatch", 10, 0), ("logfail", 8, 0)], thorough=[("client", 240, 600), ("chaos", 80, 600), ("barrierrace", 48, 0), ("mixedbatch", 48, 0), ("logfail", 48, 0)])),
     "C09": dict(models=dict(quick=[("VerifyLeader.tla", "VerifyLeader_fixed.cfg", 120), ("VerifyLeader.tla", "VerifyLeader_aswas.cfg", 120, "NoStaleSuccess")], thorough=[("VerifyLeader.tla", "VerifyLeader_fixed5.cfg", 300), ("VerifyLeader.tla", "VerifyLeader_aswas.cfg", 120, "NoStaleSuccess")]), families=dict(quick=[("verify", 32, 400), ("member", 8, 400), ("verifywide", 12, 0)], thorough=[("verify", 240, 600), ("member", 80, 500), ("verifywide", 96, 0)])),
     "C10": dict(models=dict(quick=[], thorough=[("MC_HRaft.tla", "MC_Crash.cfg", 900)]), families=dict(quick=[("restart", 24, 400), ("snapcfgrace", 12, 0), ("snapmember", 8, 400), ("ctcrash", 12, 0), ("voterestart", 6, 0)], thorough=[("restart", 240, 600), ("snap", 80, 600), ("snapcfgrace", 96, 0), ("snapmember", 80, 500), ("ctcrash", 64, 0), ("voterestart", 32, 0)]), suites=["l2:restart"]),
     "C11": dict(models=dict(quick=[("MC_HRaft.tla", "MC_Snapshot_q.cfg", 300)], thorough=[("MC_HRaft.tla", "MC_Snapshot_q.cfg", 900)]), families=dict(quick=[("snap", 24, 400), ("restart", 16, 400), ("snapcfgrace", 12, 0), ("phases", 10, 0), ("snapcfgterm", 6, 0)], thorough=[("snap", 200, 700), ("restart", 160, 600), ("restore", 60, 500), ("snapcfgrace", 96, 0), ("snapmember", 80, 500), ("phases", 64, 0), ("apibound", 48, 0), ("snapcfgterm", 24, 0)]), suites=["l1:compaction", "comp:filesnap"]),
-    "C12": dict(families=dict(quick=[("chaos", 16, 400), ("snap", 16, 400), ("restart", 12, 400), ("elect", 16, 400), ("prevoteterm", 8, 0), ("phases", 10, 0), ("cfgtruncelect", 8, 0)], thorough=[("chaos", 120, 700), ("snap", 160, 700), ("restart", 120, 600), ("member", 40, 500), ("elect", 120, 500), ("restore", 60, 500), ("prevoteterm", 48, 0), ("phases", 64, 0), ("cfgtruncelect", 48, 0), ("snapvote", 24, 0)])),
+    "C12": dict(families=dict(quick=[("chaos", 16, 400), ("snap", 16, 400), ("restart", 12, 400), ("elect", 16, 400), ("prevoteterm", 8, 0), ("phases", 10, 0), ("cfgtruncelect", 8, 0), ("replaceleader", 8, 0)], thorough=[("replaceleader", 48, 0), ("chaos", 120, 700), ("snap", 160, 700), ("restart", 120, 600), ("member", 40, 500), ("elect", 120, 500), ("restore", 60, 500), ("prevoteterm", 48, 0), ("phases", 64, 0), ("cfgtruncelect", 48, 0), ("snapvote", 24, 0)])),
     "C13": dict(models=dict(quick=[("LeaseTimed.tla", "LeaseTimed_q.cfg", 120)], thorough=[("LeaseTimed.tla", "LeaseTimed.cfg", 900), ("LeaseTimed.tla", "LeaseTimed_norearm.cfg", 300, "StepsDownInTime")]), families=dict(quick=[("lease", 24, 500), ("leasequiet", 8, 400), ("leaseiso", 12, 0), ("leaseadd", 12, 0), ("leaseslowdisk", 12, 0)], thorough=[("lease", 200, 800), ("leasequiet", 48, 1200), ("leaseiso", 96, 0), ("leaseadd", 96, 0), ("leaseslowdisk", 72, 0)])),
     "C14": dict(models=dict(quick=[("MC_HRaft.tla", "MC_Election_q.cfg", 300), ("MC_HRaft.tla", "MC_Transfer_q.cfg", 600)], thorough=[("MC_HRaft.tla", "MC_Election.cfg", 900), ("MC_HRaft.tla", "MC_Transfer_q.cfg", 900)]), families=dict(quick=[("prevote", 30, 0), ("elect", 12, 400), ("prevoteterm", 6, 0), ("xferisolated", 8, 0)], thorough=[("prevote", 240, 0), ("elect", 120, 600), ("chaos", 60, 600), ("prevoteterm", 32, 0), ("xferisolated", 48, 0), ("fastpathrace", 24, 0), ("xfernonvoter", 24, 0)])),
     "C16": dict(families=dict(quick=[], thorough=[]), suites=["comp:nettrans"]),
@@ -40,7 +40,7 @@ POOL = ["figure8", "cfgtrunc", "snapcfgrace", "restoreinflight", "prevoteterm", 
         "demoteelect", "barrierrace", "transferhang", "notifyshort", "fastpathrace", "xferisolated", "stalledleader",
         "restorebacklog", "ctcrash", "apibound", "leaseadd", "verifywide", "fastpathterm", "mixedbatch", "xfernonvoter",
         "cfgtruncelect", "snapvote", "phases", "staleprefix", "cfgtrunc", "logfail", "leaseslowdisk", "notifyinflight",
-        "fastpathsnap", "snapcfgterm", "restorestale"]
+        "fastpathsnap", "snapcfgterm", "restorestale", "restorefresh", "replaceleader"]
 POOL_RUNS = dict(quick=2, thorough=8)
 
 
